@@ -1,16 +1,19 @@
 """C03 — verified dimensions = intersection of inputs and the user's subset."""
 import datagen as dg
 import props.c01 as c01
-from common import tokens_close
+from common import tokens_close, xr, xvec
 
 ID = "C03"
-TARGETS = ["Proofs.C03", "Proofs.DataRefine"]
-GEN_PREFIXES = []
+TARGETS = ["Proofs.C03", "Proofs.DataRefine", "Proofs.GenEq.Subset"]
+GEN_PREFIXES = ["subset."]
 THEOREMS = {"Proofs.C03": ["VerifModel.C03." + t for t in [
     "C03_sortU", "strictAsc_filter", "memX_filter", "C03_commonValues", "C03_ranges_inclusive",
     "C03_obsrange_value", "C03_obsrange_other", "C03_empty_nan", "C03_empty_error"]],
     "Proofs.DataRefine": ["VerifModel.DataRefine." + t for t in [
-        "getScores_refines", "C03_dims_are_intersection", "C03_dims_error"]]}
+        "getScores_refines", "C03_dims_are_intersection", "C03_dims_error"]],
+    "Proofs.GenEq.Subset": ["VerifModel.GenEq.Subset." + t for t in [
+        "latlonKeep_eq", "latlonId_eq", "elevKeep_eq", "elevId_eq", "latlonSelect_eq", "excludeX_eq",
+        "useLocationsGen_eq", "gen_latrange_inclusive", "gen_elevrange_inclusive"]]}
 TRUSTED_BASE = c01.TRUSTED_BASE + [
     "option parsing (driver.py -> Data constructor arguments) is not part of this check (see C13); the check "
     "passes already-parsed values to Data(...)"]
@@ -96,14 +99,121 @@ def gen_ops(tier, rng):
                 yield "data.subset.exh", dg.enc_op(dg.DS(full.inputs, cfg), [(["obs", "fcst"], 0, "no", None)])
 
 
+# ---- translator extension (harness/translate_more.py gen_subset)
+TRUSTED_BASE = TRUSTED_BASE + [
+    "harness/translate_more.py gen_subset: the range tests of -latrange / -lonrange / -elevrange with their default "
+    "bounds, the id a kept station contributes, the -l selection inside the lat/lon block and the -lx exclusion are read "
+    "from Data.__init__ on every run (Gen/Subset.lean); the glue (which block runs, verif.util.intersect, the error "
+    "exits) is Model/SubsetGen.lean useLocationsGen = Model/Data.lean useLocations (GenEq.Subset.useLocationsGen_eq); "
+    "validated each run by stream data.gensubset, which executes the assembled pieces against the real constructor"]
+RULE += ("; data.gensubset: one input with 1-8 stations on a small coordinate grid, -l / -lx / -latrange / -lonrange / "
+         "-elevrange each present with p about 1/2, range ends on a station's coordinate or 0.5 off; observable = the "
+         "verified location ids or the error exit, judged by the documented set semantics written in Python")
+LEVEL_TEXT += (" The range predicates themselves are machine-translated from /repo on every run and proved to be the "
+               "model's inclusive tests (latlonKeep_eq, elevKeep_eq, gen_latrange_inclusive, gen_elevrange_inclusive), the "
+               "-l / -lx filters likewise (latlonSelect_eq, excludeX_eq).")
+
+
+# ---- stream data.gensubset: the location-subsetting pieces machine-translated from Data.__init__ (Gen/Subset.lean,
+# assembled by Model/SubsetGen.lean) executed against the real constructor: one input, several stations, the options
+# -l -lx -latrange -lonrange -elevrange; reply = the verified location ids, ERR = an error exit
+def _gensubset_ops(tier, rng):
+    import random
+    r = random.Random(repr(rng.getstate()[1][:4]) + "gensubset")     # derived without advancing rng: the other streams keep their samples
+    for _ in range(250 if tier == "quick" else 4000):
+        n = r.choice([1, 2, 3, 4, 6, 8])
+        ids = r.sample([1.0, 2.0, 3.0, 5.0, 8.0, 13.0, 21.0, 34.0, 55.0], n)
+        grid = [-10.0, 0.0, 40.0, 40.5, 50.0, 60.0]
+        locs = [(i, r.choice(grid), r.choice(grid), r.choice([0.0, 10.0, 100.0, 100.5, 2500.0])) for i in ids]
+        cfg = {}
+
+        def some(vals, extra):
+            out = r.sample(vals, r.randint(max(0, len(vals) - 2), len(vals))) + ([extra] if r.random() < 0.3 else [])
+            r.shuffle(out)
+            return out + (out[:1] if r.random() < 0.2 else [])
+
+        def rr(vals):
+            a, b = r.choice(vals), r.choice(vals)
+            return (min(a, b) + r.choice([0.0, 0.0, 0.0, -0.5, 0.5]), max(a, b) + r.choice([0.0, 0.0, 0.0, 0.5, -0.5]))
+        if r.random() < 0.4:
+            cfg["l"] = some(ids + [9.0], 7.0)
+        if r.random() < 0.35:
+            cfg["lx"] = some(ids, 7.0)
+        if r.random() < 0.5:
+            cfg["lat"] = rr([l[1] for l in locs])
+        if r.random() < 0.5:
+            cfg["lon"] = rr([l[2] for l in locs])
+        if r.random() < 0.5:
+            cfg["elev"] = rr([l[3] for l in locs])
+        yield "data.gensubset", "gensubset %s %s" % (dg.enc_cfg(cfg), ";".join(":".join(xr(v) for v in l) for l in locs))
+
+
+def _gensubset_dec(op):
+    a = op.split(" ")
+    z = ",".join(["0"] * len(a[2].split(";")))
+    ds, _ = dg.dec_op("data %s 0|0|%s|obs=%s;fcst=%s -" % (a[1], a[2], z, z))
+    return ds
+
+
+def _gensubset_impl(op):
+    import warnings
+    ds = _gensubset_dec(op)
+    with warnings.catch_warnings():
+        warnings.simplefilter("ignore")
+        try:
+            data = dg.build_data(ds)
+        except SystemExit:
+            return "ERR"
+    return xvec([l.id for l in data.locations])
+
+
+def _gensubset_judge(op, impl_out):
+    """the documented set semantics, written from the help text: a station is verified iff its latitude, longitude
+    and elevation lie inside the given ranges (end points included), its id is listed in -l (if given) and not in -lx"""
+    ds = _gensubset_dec(op)
+    c = ds.cfg
+    keep = []
+    for (i, lat, lon, elev) in ds.inputs[0]["locs"]:
+        ok = all(c.get(k) is None or c[k][0] <= v <= c[k][1] for k, v in (("lat", lat), ("lon", lon), ("elev", elev)))
+        ok = ok and (c.get("l") is None or i in c["l"]) and (c.get("lx") is None or i not in c["lx"])
+        if ok:
+            keep.append(i)
+    want = xvec(sorted(set(keep))) if keep else "ERR"
+    if impl_out != want:
+        return ({"kind": "subset-locations"}, "verified locations %s, the options select %s (%s)" % (impl_out, want, op.split(" ")[1]))
+    return None
+
+
+def gen_ops(tier, rng, _base=gen_ops):
+    for x in _base(tier, rng):
+        yield x
+    for x in _gensubset_ops(tier, rng):
+        yield x
+
+
 def impl(op):
+    if op.startswith("gensubset "):
+        return _gensubset_impl(op)
     return dg.impl_data(op)
 
 
 def cmp(op, impl_out, model_out):
+    if op.startswith("gensubset "):
+        return impl_out == model_out
     return tokens_close(impl_out, model_out, 1e-9, 1e-12)
 
 
-spec_op = c01.spec_op
-judge = c01.judge
-nontrivial = c01.nontrivial
+def spec_op(op):
+    return None if op.startswith("gensubset ") else c01.spec_op(op)
+
+
+def judge(op, impl_out, spec_out):
+    if op.startswith("gensubset "):
+        return _gensubset_judge(op, impl_out)
+    return c01.judge(op, impl_out, spec_out)
+
+
+def nontrivial(op, out):
+    if op.startswith("gensubset "):
+        return out != "ERR"
+    return c01.nontrivial(op, out)
